@@ -5,7 +5,8 @@ Spec    spec/Dnssec.tla: CanonRR / CanonOwner (owner lower-cased, "*." + rightmo
         TTL = Original TTL, no compression), SignedData = RRSIG RDATA prefix with lower-cased signer o canonical RRs sorted by RDATA as
         left-justified octet strings, repeated RDATA once; PreChecks (RRset; key tag (RFC 4034 app. B), algorithm, class, signer = key
         owner; ZONE flag, protocol 3; RRSIG owner / class / covered type = RRset's; Labels <= owner labels; NOT the validity period);
-        SignFills (what Sign writes into the RRSIG).  The signature primitive is uninterpreted.
+        SignFills (what Sign writes into the RRSIG).  The signature primitive is uninterpreted.  The canonical order compares with
+        LexLessB (the common prefix by bisection; MC_Dnssec: = Bytes!LexLess), so records of 64 kB are sorted in milliseconds.
 MC      MC_Dnssec: SignedData invariant under order, repetition, TTLs, owner case, RDATA-name case (s.6.2 types), signer case, wildcard
         re-expansion; changed by every single-field alteration the statement lists and by the case of NSEC next names / TXT strings;
         every pre-check fails when its field alone is wrong.
@@ -21,6 +22,18 @@ TV      one pipeline per shard, two trace-validation passes around the harness (
                          Cases 0..3 of every shard also make signatures whose integers have leading zero octets: ECDSA with R resp. S
                          short by 1 and 2 octets (a crypto.Signer walking the nonce until the value is short, handed to the real Sign;
                          the same shapes forged by the standard library for Verify), RSA with a leading zero octet (inception stepped).
+                         Every pre-check of the statement is falsified ALONE under a signature that is valid over the specification's
+                         octets: key-class / forge-key-class (a DNSKEY of class CH, HS, NONE, ANY, 0, ... with the same owner, flags,
+                         protocol, algorithm and key octets), class-rrsig-and-key, forge-class-rrset, forge-type-covered,
+                         forge-key-algorithm (RSA siblings 5/7, 8/10: same key octets and hash), besides the older key-tag, signer,
+                         zone-flag, protocol, owner, labels ones.
+          dnssec record  ... <n>+<nbig>: the LARGE-RECORD universe (shard "5" quick, "big0..2" thorough): RRsets of 2-3 records, one (or two that
+                         agree but for the last octet) with a wire length -- owner + 10 + RDATA, what rawSignatureData packs -- at and next
+                         to the sizes a buffer might have: 4097 in every run, 4096 | 4095, one of 5003 .. 32769 or RDATA of 65535 octets,
+                         one of 511 .. 2049 (no other case has a record over 200 octets); thorough: all 20 lengths of bigThorough (511 ..
+                         65536, RDATA 65535).  Types TXT (many strings), TYPE65000 (RFC 3597), DNSKEY, SIG (signer lower-cased, then a long
+                         signature).  Variants: orig, order, repeated, owner-case + TTLs, last octet of the large record altered, large record
+                         dropped, forge, forge-shuffled.  Finding keys carry record-over-4096-octets / record-over-512-octets.
           Trace_Dnssec   pass 1: Sign must succeed and fill the fields as SignFills says; emits SignedData for every event
           dnssec finish  (1) crypto/rsa|ecdsa|ed25519 verify the REAL signature over the SPEC's octets; (5) forged variants are signed by
                          the standard library over the SPEC's octets; real Verify on every variant -> "verify" events with
@@ -63,6 +76,13 @@ Mutants (checks/mutants/C10; each `VERIF_REPO=/tmp/comp-x bin/check C10 quick` e
                             verify-rejects-valid:NXT:rdata-name-case, verify-accepts-invalid:signature:unaltered:NXT:rdata-name-uppercase
   reintroduce-star-prefix-wildcard.diff   reverse of fix f3cd792            -> pass 1 sign-fields:Labels:star-prefixed-label; finish (1) ...:star-prefixed-label
   reintroduce-root-wildcard-dotdot.diff   reverse of fix ffb8107            -> pass 1 sign-error:wildcard-at-root (when *. is drawn); pass 2 verify-rejects-valid:wildcard-at-root
+  shared-scratch-4096.diff  every record packed into one DefaultMsgSize scratch buffer (seed C10-14) -> pass 1 sign-error:record-over-4096-octets;
+                            pass 2 verify-rejects-valid:forge:record-over-4096-octets (shard "5": the 4097-octet record of every run and the larger one)
+  key-class-unchecked.diff  the DNSKEY's class is never looked at (seed C10-15) -> pass 2 verify-accepts-invalid:key-class:key-class and
+                            ...:forge-key-class:key-class (every signature: three classes, rotating through CH HS NONE ANY 0 32769 CS 256)
+  covered-type-unchecked.diff   TypeCovered not compared with the RRset's type -> pass 2 verify-accepts-invalid:forge-type-covered:type
+  rrset-class-unchecked.diff    RRset class not compared with the RRSIG's     -> pass 2 verify-accepts-invalid:class-rrsig-and-key:class, ...:forge-class-rrset:class
+  key-algorithm-unchecked.diff  RRSIG algorithm not compared with the key's   -> pass 2 verify-accepts-invalid:forge-key-algorithm:algorithm (RSA shards)
 Benign (checks/benign/C10, must exit 0): dedup-first-prechecks-reordered.diff (duplicates dropped through a map before a stable sort;
 the key pre-checks in another order).
 Findings of this check on the originally pinned tree, since repaired in /repo: NXT next name not lower-cased (fb0255f); Sign took every
@@ -142,9 +162,13 @@ def run(ctx):
         jobs += [lambda: pipeline(ctx, binp, lay, "3", ctx.seed * 1000 + 3, 3, ["RSASHA256-2048"], 0)]       # one 2048-bit key per run
         # both curves in every run whatever the pair: signatures with short R / short S (cases 0..3 of every shard make them)
         jobs += [lambda: pipeline(ctx, binp, lay, "4", ctx.seed * 1000 + 4, 4, ["ECDSAP256SHA256", "ECDSAP384SHA384"], 0)]
-        vp.parallel(jobs, maxpar=6)
+        # the large-record universe: four RRsets with a record of 4097, 4096 | 4095, one of 5003..16385 and one of 511..2049 octets
+        jobs += [lambda: pipeline(ctx, binp, lay, "5", ctx.seed * 1000 + 5, "0+4", algs, 0)]
+        vp.parallel(jobs, maxpar=7)
     else:
         jobs += [lambda k=k: pipeline(ctx, binp, lay, str(k), ctx.seed * 1000 + k, 56, ALL, 3) for k in range(12)]
+        # large records: every length of the list (bigThorough: around 512 .. 65536 octets, RDATA of 65535), 7 per shard
+        jobs += [lambda k=k: pipeline(ctx, binp, lay, "big%d" % k, ctx.seed * 1000 + 100 + 7 * k, "0+7", ALL, 0) for k in range(3)]
         vp.parallel(jobs, maxpar=6)
     ctx.assumptions += [
         "the signature primitives and hash functions are Go's standard library, applied to the octets the specification fixes; "
@@ -155,6 +179,8 @@ def run(ctx):
         "checked textually by the library), and RRsets whose records spell the owner in different letter case among themselves "
         "(IsRRset compares strings)",
         "RRSIG RRsets are not signed (RFC 4035 s.2.2); A6 is not known to the library; key tag 0 is avoided (Sign refuses it)",
+        "large records: quick takes four RRsets per run (4097, 4096 | 4095, one of 5003 .. 65535+, one of 511 .. 2049 octets on the wire), "
+        "with eight variants each instead of the full list; thorough every length of the list once",
         "Verify does not look at the validity period (stated by the property); expired and not-yet-valid signatures must verify",
         "quick tier: bit flips inside the signature and public key fields take one bit per octet (all bits of the first and last "
         "octet); every bit of the other RRSIG / DNSKEY fields is flipped; RDATA that no longer holds a valid signer name is skipped",
